@@ -31,6 +31,15 @@ func runCase(c chainsim.Case, rep chainsim.Reporter, scratch string) {
 		}
 	}
 	chainsim.ReportCommon(h, rep)
+	// A history that ended with the election-precondition message: was the precondition really lost?
+	if pc := chainsim.VerifyElectionPrecondition(h); pc.Applicable {
+		if pc.Confirmed {
+			rep.Count("precondition_lost_and_confirmed_by_recomputation", 1)
+		} else {
+			rep.Violation("c10/halt/validator-election-refused-although-enough-eligible-validators", "block execution halted with \""+h.PreconditionLost+"\" although the documented precondition holds: "+pc.Detail,
+				map[string]any{"params": h.Sc.P, "height": h.Height + 1, "eligible_entities": pc.EligibleEntities, "min_validators": pc.MinValidators})
+		}
+	}
 	if h.PreconditionLost == "" && h.Height >= int64(c.Blocks) {
 		rep.Count("histories_completed", 1)
 	}
